@@ -42,6 +42,10 @@ def authFamily : Family Auth.St Auth.Op :=
 def mpFamily : Family MP.St (DOp Str) :=
   ⟨MP.load, id, fun h d => (MP.write h d).1, fun d op => ((dstep d op).st, (dstep d op).notified)⟩
 
+/-- equality of HeaderSet views: same member list, same lookup set (a Python set: order-free) -/
+def hsEq (a b : HS.St) : Bool :=
+  decide (a.headers = b.headers) && a.set.all (b.set.contains ·) && b.set.all (a.set.contains ·)
+
 def anyView {σ : Type} : σ → Bool := fun _ => true
 def anyOp {σ ο : Type} : σ → ο → Bool := fun _ _ => true
 
@@ -51,12 +55,12 @@ def anyOp {σ ο : Type} : σ → ο → Bool := fun _ _ => true
 and `hsOk` item assignments, the held HeaderSet view stays equal to the re-read property whenever it
 is in sync; and the invariant is kept. -/
 theorem view_coherent_set (name : Str) (evs : List (Ev HS.Op)) (s : S HS.St)
-    (hI : HS.Inv s.v) (hs : s.synced = true → SetView.load s.h name = s.v)
-    (hok : okHist (setFamily name) (fun c => decide (HS.Inv c)) C08L.hsOk s evs = true) :
+    (hI : HS.Inv s.v) (hs : s.synced = true → hsEq (SetView.load s.h name) s.v = true)
+    (hok : okHist (setFamily name) hsEq (fun c => decide (HS.Inv c)) C08L.hsOk s evs = true) :
     HS.Inv (run (setFamily name) s evs).v ∧
     ((run (setFamily name) s evs).synced = true →
-      SetView.load (run (setFamily name) s evs).h name = (run (setFamily name) s evs).v) := by
-  have := coherent (setFamily name) (fun c => decide (HS.Inv c)) C08L.hsOk
+      hsEq (SetView.load (run (setFamily name) s evs).h name) (run (setFamily name) s evs).v = true) := by
+  have := coherent (setFamily name) hsEq (fun c => decide (HS.Inv c)) C08L.hsOk
     (fun v op hv ha => by
       simp only [decide_eq_true_eq] at hv ⊢
       exact C08L.hs_inv_preserved v hv op ha)
@@ -64,9 +68,9 @@ theorem view_coherent_set (name : Str) (evs : List (Ev HS.Op)) (s : S HS.St)
       simp only [decide_eq_true_eq] at hv
       exact hs_quiet v hv op hq)
     evs s (by simpa using hI) hs hok
-  simpa using this
+  exact ⟨by simpa using this.1, this.2⟩
 
-example : okHist (setFamily "Vary".toList) (fun c => decide (HS.Inv c)) C08L.hsOk
+example : okHist (setFamily "Vary".toList) hsEq (fun c => decide (HS.Inv c)) C08L.hsOk
     ⟨[("Vary".toList, "Cookie".toList)], SetView.load [("Vary".toList, "Cookie".toList)] "Vary".toList, true⟩
     [.view (.remove "cookie".toList), .view (.add "Accept".toList), .edit (fun h => (Hdr.add h "X".toList "1".toList).1),
      .view (.update ["a b".toList, "ACCEPT".toList]), .refetch, .view (.setitem 0 "Origin".toList), .view .clear] = true := by
@@ -74,11 +78,11 @@ example : okHist (setFamily "Vary".toList) (fun c => decide (HS.Inv c)) C08L.hsO
 
 /-- cache_control: every typed directive assignment / deletion and every dict mutator -/
 theorem view_coherent_cc (evs : List (Ev CC.Op)) (s : S ODict)
-    (hs : s.synced = true → CC.load s.h = s.v) (hok : okHist ccFamily anyView anyOp s evs = true) :
+    (hs : s.synced = true → CC.load s.h = s.v) (hok : okHist ccFamily eqB anyView anyOp s evs = true) :
     (run ccFamily s evs).synced = true → CC.load (run ccFamily s evs).h = (run ccFamily s evs).v :=
-  (coherent ccFamily anyView anyOp (fun _ _ _ _ => rfl) (fun v op _ _ hq => cc_quiet v op hq) evs s rfl hs hok).2
+  fun hsy => (eqB_iff _ _).1 ((coherent ccFamily eqB anyView anyOp (fun _ _ _ _ => rfl) (fun v op _ _ hq => cc_quiet v op hq) evs s rfl (fun h => (eqB_iff _ _).2 (hs h)) hok).2 hsy)
 
-example : okHist ccFamily anyView anyOp ⟨[], CC.load [], true⟩
+example : okHist ccFamily eqB anyView anyOp ⟨[], CC.load [], true⟩
     [.view (.attr "max-age".toList .int (.int 3600)), .view (.attr "no-store".toList .bool (.bool true)),
      .view (.attr "private".toList .str (.str "a b".toList)), .view (.delattr "no-store".toList),
      .edit (fun h => (Hdr.set h "Cache-Control".toList "public".toList).1), .refetch,
@@ -88,13 +92,13 @@ example : okHist ccFamily anyView anyOp ⟨[], CC.load [], true⟩
 /-- content_security_policy / content_security_policy_report_only -/
 theorem view_coherent_csp (name writeName : Str) (evs : List (Ev CSP.Op)) (s : S CSP.St)
     (hs : s.synced = true → CSP.load s.h name = s.v)
-    (hok : okHist (cspFamily name writeName) anyView anyOp s evs = true) :
+    (hok : okHist (cspFamily name writeName) eqB anyView anyOp s evs = true) :
     (run (cspFamily name writeName) s evs).synced = true →
       CSP.load (run (cspFamily name writeName) s evs).h name = (run (cspFamily name writeName) s evs).v :=
-  (coherent (cspFamily name writeName) anyView anyOp (fun _ _ _ _ => rfl)
-    (fun v op _ _ hq => csp_quiet v op hq) evs s rfl hs hok).2
+  fun hsy => (eqB_iff _ _).1 ((coherent (cspFamily name writeName) eqB anyView anyOp (fun _ _ _ _ => rfl)
+    (fun v op _ _ hq => csp_quiet v op hq) evs s rfl (fun h => (eqB_iff _ _).2 (hs h)) hok).2 hsy)
 
-example : okHist (cspFamily "content-security-policy".toList "Content-Security-Policy".toList) anyView anyOp
+example : okHist (cspFamily "content-security-policy".toList "Content-Security-Policy".toList) eqB anyView anyOp
     ⟨[], [], true⟩
     [.view (.attr "default-src".toList (some "'self'".toList)), .view (.attr "img-src".toList (some "* data:".toList)),
      .view (.delattr "default-src".toList), .refetch, .view (.dict .clear)] = true := by
@@ -102,34 +106,35 @@ example : okHist (cspFamily "content-security-policy".toList "Content-Security-P
 
 /-- content_range (reading the property rewrites the header: `refetchH`) -/
 theorem view_coherent_cr (evs : List (Ev CR.Op)) (s : S CR.St)
-    (hs : s.synced = true → CR.load s.h = s.v) (hok : okHist crFamily anyView anyOp s evs = true) :
+    (hs : s.synced = true → CR.load s.h = s.v) (hok : okHist crFamily eqB anyView anyOp s evs = true) :
     (run crFamily s evs).synced = true → CR.load (run crFamily s evs).h = (run crFamily s evs).v :=
-  (coherent crFamily anyView anyOp (fun _ _ _ _ => rfl) (fun v op _ _ hq => cr_quiet v op hq) evs s rfl hs hok).2
+  fun hsy => (eqB_iff _ _).1 ((coherent crFamily eqB anyView anyOp (fun _ _ _ _ => rfl) (fun v op _ _ hq => cr_quiet v op hq) evs s rfl (fun h => (eqB_iff _ _).2 (hs h)) hok).2 hsy)
 
-example : okHist crFamily anyView anyOp ⟨[], CR.empty, true⟩
+example : okHist crFamily eqB anyView anyOp ⟨[], CR.empty, true⟩
     [.view (.set (some 0) (some 10) (some 100) (some "bytes".toList)), .view (.setLength none), .refetch,
      .view (.set (some 5) (some 2) none (some "bytes".toList)), .view .unset] = true := by
   decide +kernel
 
 /-- www_authenticate (as repaired: `type`, `token`, `parameters` reach their setters) -/
 theorem view_coherent_auth (evs : List (Ev Auth.Op)) (s : S Auth.St)
-    (hs : s.synced = true → Auth.load s.h = s.v) (hok : okHist authFamily anyView anyOp s evs = true) :
+    (hs : s.synced = true → Auth.load s.h = s.v) (hok : okHist authFamily eqB anyView anyOp s evs = true) :
     (run authFamily s evs).synced = true → Auth.load (run authFamily s evs).h = (run authFamily s evs).v :=
-  (coherent authFamily anyView anyOp (fun _ _ _ _ => rfl) (fun v op _ _ hq => auth_quiet v op hq) evs s rfl hs hok).2
+  fun hsy => (eqB_iff _ _).1 ((coherent authFamily eqB anyView anyOp (fun _ _ _ _ => rfl) (fun v op _ _ hq => auth_quiet v op hq) evs s rfl (fun h => (eqB_iff _ _).2 (hs h)) hok).2 hsy)
 
-example : okHist authFamily anyView anyOp ⟨[], Auth.default, true⟩
+example : okHist authFamily eqB anyView anyOp ⟨[], Auth.default, true⟩
     [.view (.setitem "realm".toList (some "login area".toList)), .view (.setType "digest".toList),
      .view (.setitem "nonce".toList (some "abc".toList)), .view (.delitem "nonce".toList), .refetch,
-     .view (.setParams []), .view (.setToken (some "t0k".toList)), .view (.setType "bearer".toList)] = true := by
+     .edit (fun h => (Hdr.set h "WWW-Authenticate".toList "Bearer t0k".toList).1), .refetch,
+     .view (.setToken (some "other".toList)), .view (.setType "token68".toList)] = true := by
   decide +kernel
 
 /-- mimetype_params -/
 theorem view_coherent_mp (evs : List (Ev (DOp Str))) (s : S MP.St)
-    (hs : s.synced = true → MP.load s.h = s.v) (hok : okHist mpFamily anyView anyOp s evs = true) :
+    (hs : s.synced = true → MP.load s.h = s.v) (hok : okHist mpFamily eqB anyView anyOp s evs = true) :
     (run mpFamily s evs).synced = true → MP.load (run mpFamily s evs).h = (run mpFamily s evs).v :=
-  (coherent mpFamily anyView anyOp (fun _ _ _ _ => rfl) (fun v op _ _ hq => dstep_quiet v op hq) evs s rfl hs hok).2
+  fun hsy => (eqB_iff _ _).1 ((coherent mpFamily eqB anyView anyOp (fun _ _ _ _ => rfl) (fun v op _ _ hq => dstep_quiet v op hq) evs s rfl (fun h => (eqB_iff _ _).2 (hs h)) hok).2 hsy)
 
-example : okHist mpFamily anyView anyOp
+example : okHist mpFamily eqB anyView anyOp
     ⟨[("Content-Type".toList, "text/html; charset=utf-8".toList)],
      MP.load [("Content-Type".toList, "text/html; charset=utf-8".toList)], true⟩
     [.view (.setitem "charset".toList "latin-1".toList), .view (.setitem "boundary".toList "a b".toList),
@@ -303,30 +308,15 @@ theorem typed_get_set {τ : Type} (load : Str → Option τ) (dflt : Option τ) 
       simp only [hk, if_true, List.nil_append, List.map_cons] at hg
       have := (List.cons.inj hg).1
       simp [this]
-  simp only [Scalar.get, Scalar.set, this]
+  unfold Scalar.get Scalar.set
+  rw [this]
+  cases hl : load text <;> simp [hl]
 
 /-- int-typed properties (content_length, access_control_max_age): the value read back is the int
 that was assigned -/
 theorem typed_get_set_int (h : HList) (name : Str) (i : Int) :
     Scalar.get CC.pyInt none (Scalar.set h name (CC.intText i)).1 name = some i := by
-  have hv : hasNL (CC.intText i) = false := by
-    have key : ∀ n : Nat, hasNL (CC.natText n) = false := by
-      intro n
-      unfold hasNL CC.natText
-      rw [Bool.eq_false_iff]
-      intro hc
-      rw [List.any_eq_true] at hc
-      obtain ⟨c, hm, hnl⟩ := hc
-      have hd := Nat.isDigit_of_mem_toDigits (b := 10) (by decide) (by decide) hm
-      simp only [isNL, Bool.or_eq_true, beq_iff_eq] at hnl
-      rcases hnl with e | e <;> (subst e; simp [Char.isDigit] at hd)
-    cases i with
-    | ofNat n => exact key n
-    | negSucc n =>
-      have := key (n + 1)
-      simp only [CC.intText, hasNL, List.any_cons] at this ⊢
-      simp [isNL, this]
-  rw [typed_get_set CC.pyInt none h name _ hv, pyInt_intText]
+  rw [typed_get_set CC.pyInt none h name _ (intText_noNL i), pyInt_intText]
 
 /-- str-typed properties (location, content_type, …): the text read back is the text assigned -/
 theorem typed_get_set_str (h : HList) (name text : Str) (hv : hasNL text = false) :
@@ -337,25 +327,11 @@ theorem typed_get_set_str (h : HList) (name text : Str) (hv : hasNL text = false
 `dump_age`, and a negative header text reads as None) -/
 theorem typed_get_set_age (h : HList) (n : Nat) :
     Scalar.get Scalar.parseAge none (Scalar.set h "Age".toList (CC.natText n)).1 "Age".toList = some (n : Int) := by
-  have := typed_get_set_int h "Age".toList (n : Int)
+  rw [typed_get_set Scalar.parseAge none h _ _ (natText_noNL n)]
   have hne : (CC.natText n).isEmpty = false := by
     obtain ⟨c, t, he, _⟩ := natText_head_digit n; rw [he]; rfl
-  simp only [Scalar.get, Scalar.parseAge] at this ⊢
-  cases hg : getKey (Scalar.set h "Age".toList (CC.natText n)).1 "Age".toList with
-  | error e => simp [CC.intText, hg] at this
-  | ok v =>
-    simp only [CC.intText, hg] at this
-    simp only []
-    cases hp : CC.pyInt v with
-    | none => simp [hp] at this
-    | some i =>
-      simp only [hp, Option.some.injEq] at this
-      subst this
-      have hv : v.isEmpty = false := by
-        cases v with
-        | nil => simp [CC.pyInt, CC.digitsVal] at hp
-        | cons _ _ => rfl
-      simp [hv, hp]
+  have hnn : ¬ ((n : Int) < 0) := by omega
+  simp [Scalar.parseAge, hne, pyInt_natText, hnn]
 
 /-- deleting a typed property makes the getter return the default -/
 theorem typed_delete {τ : Type} (load : Str → Option τ) (dflt : Option τ) (h : HList) (name : Str) :
